@@ -5,7 +5,7 @@
 set -e
 D=$(mktemp -d /var/tmp/repo_suite.XXXXXX)
 trap 'rm -rf "$D"' EXIT
-rsync -a --exclude .git --exclude build /repo/ "$D/repo/"
+rsync -a --exclude .git --exclude build "${VERIF_REPO:-/repo}/" "$D/repo/"
 cd "$D/repo"
 PYTHONPATH="$D/repo/src:/verif/shim" PYTHONHASHSEED=0 /venv/bin/python -m pytest -q -p no:cacheprovider -n 8 --timeout=900 \
    -x --co -q >/dev/null 2>&1 || true
